@@ -1,4 +1,5 @@
 """E-MISC: small repository-specific structural rules."""
+import re
 from .cfg import Flow, loops
 from .callgraph import node_writes
 
@@ -346,4 +347,38 @@ def wide_products(f):
         if n["k"] == "bin" and n.get("op") in ("*", "*=") and n.get("tw") in ("i64", "u64") and f.pos_of(i) is not None:
             if wide(n["l"]) and wide(n["r"]):
                 out.append(i)
+    return out
+
+
+def double_advance(prog, cg, f):
+    """Loops that walk a container with an iterator local (`it != C.end()` in the condition): [(node, message)] for every place where
+    the iterator can be advanced a second time within one iteration - `it = C.erase(it)` (which already yields the next element)
+    followed by the loop's own `++it`, or two increments.  The element in between is skipped: it is neither examined nor refreshed."""
+    from .cfg import Flow, loops
+    from .rules.common import iter_flow_raw
+    out = []
+    for l in loops(f):
+        if l.get("stmt") is None:
+            continue
+        sn = f.nodes[l["stmt"]]
+        if sn["k"] not in ("for", "while", "do") or sn.get("c") is None or sn.get("c", -1) < 0:
+            continue
+        m = re.match(r"^\((\w+)(@\d+)? != .*(\.|->)c?end\(\)\)$", f.text(sn["c"]))
+        if not m:
+            continue
+        it = m.group(1) + (m.group(2) or "")
+        adv = []
+        for i, n in enumerate(f.nodes):
+            if f.pos_of(i) is None or l["stmt"] not in set(f.ancestors(i)):
+                continue
+            if n["k"] in ("un", "call") and n.get("op") == "++" and f.text(n.get("sub", n.get("recv", -1))) == it:
+                adv.append(i)
+            elif n["k"] in ("bin", "call") and n.get("op") == "=" and f.text(n.get("l", n.get("recv", -1))) == it:
+                adv.append(i)
+        if len(adv) < 2:
+            continue
+        fi = iter_flow_raw(prog, cg, f, l, {a: [("set", "advanced")] for a in adv})
+        for a in adv:
+            if fi.may(a, "advanced"):
+                out.append((a, "the iterator '%s' can be advanced twice in one iteration (%s after an earlier advance): the element in between is skipped" % (it, f.text(a)[:50])))
     return out
